@@ -63,7 +63,8 @@ class C14(Prop):
                                         'shutdown_fault': st.sampled_from([None, None, 'E', 'B'])})
         return fd({
             'pre': st.sampled_from(['none', 'sys', 'threading', 'both', 'same']),
-            'no_trace': st.sampled_from([None, None, True, 'True']),
+            'no_trace': st.sampled_from([None, None, True, 'True', 'false', '0', 'no', False, '']),
+            'parked_kind': st.sampled_from(['log', 'capture']),
             'plugins': st.lists(plugin, max_size=4),
             'ops': st.lists(st.sampled_from(['start', 'start', 'shutdown', 'shutdown', 'hit']), min_size=1, max_size=7),
             'sends': st.lists(st.sampled_from(['ok', 'fail', 'convert_fail']), max_size=3),
@@ -86,7 +87,7 @@ class C14(Prop):
         custom = dict(BUILTIN_OFF, APP_ROOT='/app', PLUGINS=dotted, POLL_TIMER=1000, SERVICE_SECURE='False')
         if recipe['no_trace'] is not None:
             custom['NO_TRACE'] = recipe['no_trace']
-            out.cls('no_trace')
+            out.cls('no_trace' if recipe['no_trace'] in (True, 'True') else 'no_trace_ambiguous_text')
             out.nontrivial = True
         pre = recipe['pre']
         pre_sys = pre_sys_hook if pre in ('sys', 'both', 'same') else None
@@ -116,10 +117,21 @@ class C14(Prop):
         d = Deep(cfg)
         channel = lab.FakeChannel(responder)
         lab.patch_grpc_start(d, channel)
+        push_attempts = []
+        real_push = d.push
+
+        class SpyPush:
+            """Every hand-over of a snapshot for delivery is an action of the agent, whether or not it gets through."""
+
+            def push_snapshot(self, snapshot):
+                push_attempts.append(threading.current_thread().name)
+                return real_push.push_snapshot(snapshot)
+        d.trigger_handler._push_service = SpyPush()
         gate, reached = threading.Event(), threading.Event()
         worker = [None]
         started_model = False
         ever_started = False
+        tracing_on = False
         timers = []
         try:
             sys.settrace(pre_sys)
@@ -148,23 +160,40 @@ class C14(Prop):
                     if started_model:
                         if len(channel.of('poll')) != n_polls or len(world.instances) != n_inst or len(timers) > 1:
                             out.violate('a repeated start did something again (poll / plugins / timer)')
-                    if recipe['no_trace'] is not None:
-                        if cur_sys is not pre_sys or cur_thr is not pre_thr:
+                    installed = (cur_sys == d.trigger_handler.trace_call and cur_thr == d.trigger_handler.trace_call)
+                    untouched = (cur_sys is pre_sys and cur_thr is pre_thr)
+                    if recipe['no_trace'] in (True, 'True'):
+                        if not untouched:
                             out.violate('tracing disabled by configuration, yet start changed the trace hooks')
-                    else:
-                        if cur_sys != d.trigger_handler.trace_call or cur_thr != d.trigger_handler.trace_call:
+                    elif recipe['no_trace'] in (None, False, ''):
+                        if not installed:
                             out.violate('start did not install the agent\'s trace hooks')
+                    else:
+                        # 'false' / '0' / 'no': whether such a text disables tracing is not documented; either way the
+                        # hooks must be wholly ours or wholly untouched, and shutdown must put the old ones back
+                        if not (installed or untouched):
+                            out.violate('start left the trace hooks half installed')
+                    tracing_on = installed
+                    if installed:
                         sys.settrace(cur_sys)
-                    if not started_model and recipe['parked'] and worker[0] is None and recipe['no_trace'] is None:
+                    if not started_model and recipe['parked'] and worker[0] is None and tracing_on:
                         ns = {}
                         exec(_host_code, ns)
                         worker[0] = threading.Thread(target=ns['work'], args=(gate, reached), name='c14-parked')
                         sys.settrace(pre_sys)
+                        if recipe.get('parked_kind') == 'capture':
+                            # the parked invocation has deferred work pending (a capture of its return value)
+                            from deep.api.tracepoint.trigger import Trigger, FunctionLocation, LocationAction, Location
+                            act = LocationAction('tp-cap', None, {'stage': 'method_capture', 'fire_count': '-1',
+                                                                  'fire_period': '0', 'watches': []},
+                                                 LocationAction.ActionType.Snapshot)
+                            d.trigger_handler.new_config(list(d.trigger_handler._tp_config) + [
+                                Trigger(FunctionLocation('c14_host.py', 'work', Location.Position.CAPTURE), [act])])
+                            out.cls('parked_with_deferred_capture')
                         worker[0].start()
                         if not reached.wait(10):
                             raise HarnessError('parked thread did not start')
-                        if recipe['no_trace'] is None:
-                            sys.settrace(cur_sys)
+                        sys.settrace(cur_sys)
                         out.cls('parked_thread')
                     started_model = True
                     ever_started = True
@@ -211,7 +240,7 @@ class C14(Prop):
                             exc, (plugsynth.PluginFault, plugsynth.PluginBaseFault)) else lab.exc_bucket(exc)))
                     if was_started:
                         if cur_sys is not pre_sys or cur_thr is not pre_thr:
-                            what = 'disabled tracing: pre-existing hooks were wiped' if recipe['no_trace'] is not None \
+                            what = 'disabled tracing: pre-existing hooks were wiped' if recipe['no_trace'] in (True, 'True') \
                                 else 'hooks not restored to the pre-start ones'
                             out.violate('after shutdown: %s' % what,
                                         {'sys_restored': cur_sys is pre_sys, 'threading_restored': cur_thr is pre_thr})
@@ -249,6 +278,7 @@ class C14(Prop):
                 logger_calls = lambda: [c for c in world.calls if c[1] == 'log_tracepoint']   # noqa
                 n_log = len(logger_calls())
                 n_send = len(channel.of('send'))
+                n_push = len(push_attempts)
                 gate.set()
                 worker[0].join(10)
                 if worker[0].is_alive():
@@ -257,6 +287,9 @@ class C14(Prop):
                     time.sleep(0.01)
                     if len(logger_calls()) != n_log or len(channel.of('send')) != n_send:
                         out.violate('after shutdown: a thread that was already running still acts on a tracepoint')
+                    elif len(push_attempts) != n_push:
+                        out.violate('after shutdown: a thread that was already running still hands a (deferred) snapshot '
+                                    'over for delivery')
         finally:
             gate.set()
             try:
